@@ -1,49 +1,92 @@
 """C04 — timers fire exactly once, never early; the loop never oversleeps.
 
 Clock values and the repeated-deadline state machine are runtime quantities:
-not decided.  Claimed: structural clauses + the comparator tables.
+not decided.  Claimed: necessary conditions, each formulated on what the code
+does rather than on how it is spelled (see REPORT-C04.md):
+
+  * order-set analysis: which orders of (expiry, loop clock) the branch
+    conditions since the definition of a timer still allow where it is expired
+    (R-C04a, R-C04a.cmp in context), per definition of the timer variable;
+  * exhaustive path evaluation with a small memory model (h04.explore) of the
+    keep-armed decision (R-C04f) and of the timeout that reaches the kernel
+    (R-C04g) in the calling context (helpers inlined);
+  * must / disjunctive dataflow for cache invalidation (R-C04b), re-evaluation
+    after a wake (R-C04c), exactly-once structure (R-C04d), deadline origins (R-C04e).
+
+Anchors: exported functions, poll-method slots, sites (method->poll, list links
+through list_expired, stores to iv_state.time_valid / num_timers, kernel wait
+primitives), typed operands ((record, field) steps); never a static helper's
+name, a local's name or expression text.
 """
-from ..core import (names_of, same_value, AnalysisBroken, Inliner, canon, strip, last_member, must_pass, relpath, norm_cond, walk, forward)
-from ..analyses import (is_call, holding, path_to, describe, exits_of, callback_kind, loops, innermost_loop,
-                        delta_analysis, is_fail, must_pass_from_block)
+from ..core import AnalysisBroken, canon, strip, last_member, must_pass, relpath, norm_cond, walk, forward
+from ..analyses import is_call, path_to, describe, exits_of, callback_kind, delta_analysis, atoms_imply
 from .. import interp
-from . import c01
+from . import h04 as h
+
+
+def _heap_order_comparators(prog, comps):
+    """Those comparators that are applied to the expiries of two timers (the heap order), directly or through
+    wrappers that pass their arguments on."""
+    names = {f.name for f in comps}
+    used = set()
+    for f in prog.all_funcs():
+        for e in f.events():
+            for x in ([e] if e['ev'] == 'call' else []) + list(walk(e)):
+                if (x.get('k') == 'call' or x.get('ev') == 'call') and x.get('callee') in names and len(x.get('args', [])) == 2:
+                    lms = [last_member(strip(a_)['e']) if strip(a_).get('k') == 'addr' else None for a_ in x['args']]
+                    if all(lm in (('iv_timer_', 'expires'), ('iv_timer', 'expires')) for lm in lms):
+                        used.add(x['callee'])
+    return used
 
 
 def cmp_tables(ctx, rid):
+    """Every pure two-timespec comparator of the program is evaluated over the 9 orders of (seconds, nanoseconds):
+    one that returns a negative value somewhere must be the three-way lexicographic order (a NULL first argument = +infinity
+    when it tests for it); one that is applied to two timer expiries (the heap order) must be exactly "strictly later";
+    any other 0/1 predicate must at least be one of the four lexicographic orders.  (C04 additionally evaluates the
+    expiry decision and the keep-armed decision in context, see expiry / keep_armed.)"""
     prog = ctx.prog
-    f = prog.fn('timespec_gt')
-    a, b = f.params[0]['name'], f.params[1]['name']
-    pairs = [('%s->tv_sec' % a, '%s->tv_sec' % b), ('%s->tv_nsec' % a, '%s->tv_nsec' % b)]
-    for so in '<=>':
-        for no in '<=>':
-            asg = interp.Assignment(orders={pairs[0]: so, pairs[1]: no})
-            r = interp.run(f, asg)['ret']
-            want = int(so == '>' or (so == '=' and no == '>'))
-            ctx.ob(rid, 'timespec_gt:sec%s,nsec%s' % (so, no), r == want, loc=f.loc,
-                   detail='returns %s, strictly-later order requires %d' % (r, want), fn=f.q)
-    f = prog.fn('timespec_cmp')
-    a, b = f.params[0]['name'], f.params[1]['name']
-    pairs = [('%s->tv_sec' % a, '%s->tv_sec' % b), ('%s->tv_nsec' % a, '%s->tv_nsec' % b)]
-    for so in '<=>':
-        for no in '<=>':
-            asg = interp.Assignment(orders={pairs[0]: so, pairs[1]: no}, bools={a: True})
-            r = interp.run(f, asg)['ret']
-            want = {'<': -1, '>': 1}.get(so) or {'<': -1, '>': 1, '=': 0}[no]
-            ok = isinstance(r, int) and ((r < 0) == (want < 0)) and ((r > 0) == (want > 0))
-            ctx.ob(rid, 'timespec_cmp:sec%s,nsec%s' % (so, no), ok, loc=f.loc,
-                   detail='returns %s, lexicographic three-way order requires sign %d' % (r, want), fn=f.q)
-    asg = interp.Assignment(bools={a: False})
-    r = interp.run(f, asg)['ret']
-    ctx.ob(rid, 'timespec_cmp:no-deadline', isinstance(r, int) and r > 0, loc=f.loc,
-           detail='a NULL deadline compares later than any stored deadline (returns %s)' % r, fn=f.q)
+    comps = h.comparators(prog)
+    if not comps:
+        raise AnalysisBroken('no pure comparator of two struct timespec found')
+    heap = _heap_order_comparators(prog, comps)
+    nstrict = 0
+    for f in comps:
+        tab = h.comparator_table(f)
+        vals = list(tab.values())
+        if any(isinstance(v, int) and v < 0 for v in vals):
+            for (so, no), r in sorted(tab.items()):
+                want = {'<': -1, '>': 1, '=': 0}[h.lex((so, no))]
+                ok = isinstance(r, int) and ((r < 0) == (want < 0)) and ((r > 0) == (want > 0))
+                ctx.ob(rid, '%s:sec%s,nsec%s' % (f.name, so, no), ok, loc=f.loc,
+                       detail='returns %s, lexicographic three-way order requires sign %d' % (r, want), fn=f.q)
+            a = f.params[0]['name']
+            if any(x.get('k') == 'var' and x['name'] == a for blk in f.blocks.values() if blk.term and blk.term.get('cond') is not None
+                   for x in [strip(y) for (_, _, _, y, _) in norm_cond(blk.term['cond'], True) if isinstance(y, dict)]):
+                r = interp.run(f, interp.Assignment(bools={a: False, f.params[1]['name']: True}))['ret']
+                ctx.ob(rid, '%s:no-deadline' % f.name, isinstance(r, int) and r > 0, loc=f.loc,
+                       detail='a NULL deadline compares later than any stored deadline (returns %s)' % r, fn=f.q)
+        elif f.name in heap:
+            nstrict += 1
+            for (so, no), r in sorted(tab.items()):
+                want = int(h.lex((so, no)) == '>')
+                ctx.ob(rid, '%s:sec%s,nsec%s' % (f.name, so, no), r == want, loc=f.loc,
+                       detail='returns %s, strictly-later order (the heap order of the timers) requires %d' % (r, want), fn=f.q)
+        else:
+            shapes = {op: {o: int(interp.cmp_holds(h.lex(o), op)) for o in h.ORDERS} for op in ('<', '<=', '>', '>=')}
+            ok = any(all(tab[o] == sh[o] for o in h.ORDERS) for sh in shapes.values())
+            ctx.ob(rid, '%s:lexicographic' % f.name, ok, loc=f.loc,
+                   detail='a 0/1 comparison of two time values is one of the lexicographic orders <, <=, >, >=: %s' % sorted(tab.items()), fn=f.q)
+    if not nstrict:
+        raise AnalysisBroken('no comparator is applied to two timer expiries (heap order)')
 
 
 def run(ctx):
     ctx.rule('R-C04a', 'a timer is moved to the expired batch only on the not-later-than-now edge of the strict comparison of its '
                        'expiry with the loop clock, and the loop clock is valid there', floor=3)
-    ctx.rule('R-C04a.cmp', 'comparator tables: timespec_gt is exactly "strictly later" over all 9 orderings of (sec, nsec); '
-                           'timespec_cmp is the three-way lexicographic order with NULL = +infinity', floor=19)
+    ctx.rule('R-C04a.cmp', 'comparator tables over all 9 orderings of (sec, nsec): the expiry decision evaluated in context is exactly '
+                           '"expiry not later than clock"; the comparator used as heap order is exactly "strictly later"; a three-way '
+                           'comparator is the lexicographic order with NULL = +infinity', floor=18)
     ctx.rule('R-C04b', 'the cached time dies with every wait: in every poll slot every path from the wait primitive to a return '
                        'invalidates the time cache', floor=4)
     ctx.rule('R-C04c', 'timers are re-evaluated after every wake of a timeout-bounded wait: poll slots of methods without a kernel '
@@ -60,6 +103,7 @@ def run(ctx):
     ctx.section(keep_armed)
     ctx.section(rounding)
     ctx.section(expiry)
+    ctx.section(expiry_table)
     ctx.section(lambda c: cmp_tables(c, 'R-C04a.cmp'))
     ctx.section(invalidate)
     ctx.section(rerun)
@@ -67,283 +111,856 @@ def run(ctx):
     ctx.section(deadline)
 
 
+def _method_poll(e):
+    return e['ev'] == 'call' and callback_kind(e) == ('method', 'poll')
+
+
+def _deadline_param(f):
+    ps = [p['name'] for p in f.params if p.get('ptr') and p.get('record') == 'timespec']
+    if len(ps) != 1:
+        raise AnalysisBroken('%s: expected exactly one struct timespec * parameter (the deadline), found %d' % (f.name, len(ps)))
+    return ps[0]
+
+
+def _all_exprs(g, copies):
+    """(expression, pointer copies at its point) of everything events and branch conditions evaluate"""
+    for b, blk in g.blocks.items():
+        for i, e in enumerate(blk.events):
+            cp = copies.get((b, i), {})
+            for key in ('rhs', 'value', 'init', 'args', 'e', 'fnexpr', 'lhs'):
+                if key in e:
+                    yield e[key], cp
+        if blk.term and blk.term.get('cond') is not None:
+            yield blk.term['cond'], copies.get((b, len(blk.events)), {})
+
+
 def keep_armed(ctx, rid='R-C04f'):
+    """The repeated-deadline optimisation, decided by exhaustive evaluation of the code between the entry of the function
+    that calls method->poll and its return (helpers inlined, so the split into iv_fd_timeout_check / timespec_cmp, the
+    name and type of the comparison result, the branch shapes do not matter): for every order of (requested deadline,
+    armed deadline) over (seconds, nanoseconds), requested deadline NULL or not, every value of the repeat counter up
+    to the largest constant it is compared with, both answers of method->set_poll_timeout / method->poll and both kinds
+    of method, all paths are enumerated and what reaches the method slots is observed.  "Armed" is the counter value at
+    which the code itself calls method->set_poll_timeout."""
     prog = ctx.prog
-    f = prog.fn('iv_fd_timeout_check')
-    hd = holding(f)
-    cmpdef = [e for e in f.events() if e['ev'] == 'store' and strip(e.get('rhs', {})).get('k') == 'call' and strip(e['rhs']).get('callee') == 'timespec_cmp']
-    if not cmpdef:
-        raise AnalysisBroken('iv_fd_timeout_check: comparison with the armed deadline not found')
-    cv = canon(cmpdef[0]['lhs'])
-    args = [canon(a) for a in strip(cmpdef[0]['rhs'])['args']]
-    ctx.ob(rid, 'timeout_check:compares-request-with-armed', args[0] == f.params[1]['name'] and args[1].endswith('last_abs'), loc=cmpdef[0]['loc'],
-           detail='cmp = timespec_cmp(requested deadline, armed deadline): %s' % args, fn=f.q)
-    keeps = []
-    for (pb, pi, e) in exits_of(f):
-        v = strip(e.get('value', {}))
-        if v.get('k') == 'int' and v['v'] != 0:
-            keeps.append(e)
-    ok = bool(keeps)
-    for e in keeps:
-        A = hd.get((e['_b'], e['_i']), frozenset())
-        ok = ok and any(a[1] == cv and ((a[0] == '>=' and a[2] == '0') or (a[0] == '>' and a[2] == '-1')) for a in A)
-    ctx.ob(rid, 'timeout_check:keep-armed-only-if-not-earlier', ok, loc=keeps[0]['loc'] if keeps else f.loc,
-           detail='returning "armed, wait without deadline" without re-arming is on the edge cmp >= 0 (requested deadline not earlier than the armed one)', fn=f.q)
-    arms = [e for e in f.events() if e['ev'] == 'call' and callback_kind(e) == ('method', 'set_poll_timeout')]
-    okr = bool(arms)
-    for a in arms:
-        # its result is returned
-        rets = [e for (pb, pi, e) in exits_of(f) if e['_b'] == a['_b'] and strip(e.get('value', {})).get('k') == 'call'
-                and last_member(strip(e['value']).get('fnexpr')) == ('iv_fd_poll_method', 'set_poll_timeout')]
-        viavar = [s_ for s_ in f.events() if s_['ev'] == 'store' and strip(s_.get('rhs', {})).get('k') == 'call'
-                  and last_member(strip(s_['rhs']).get('fnexpr')) == ('iv_fd_poll_method', 'set_poll_timeout')]
-        okr = okr and (bool(rets) or any(any(canon(e.get('value', {})) == canon(s_['lhs']) for (pb, pi, e) in exits_of(f)) for s_ in viavar))
-    ctx.ob(rid, 'timeout_check:arming-result-propagated', okr, loc=arms[0]['loc'] if arms else f.loc,
-           detail='the result of method->set_poll_timeout (0 = not armed, e.g. after falling back to a method without a kernel timer) is what '
-                  'iv_fd_timeout_check returns, so the caller waits with the deadline itself', fn=f.q)
-    g = prog.fn('iv_fd_poll_and_run')
-    hdg = holding(g, user_call_kills=False)
-    polls = [e for e in g.events() if e['ev'] == 'call' and callback_kind(e) == ('method', 'poll')]
-    okp = len(polls) >= 2
-    for p_ in polls:
-        A = hdg.get((p_['_b'], p_['_i']), frozenset())
-        armed = any(a[0] == '!=' and a[2] == '0' and a[1].startswith('iv_fd_timeout_check(') for a in A)
-        dl = canon(p_['args'][2])
-        if dl in ('NULL', '0'):
-            okp = okp and armed
-        else:
-            okp = okp and dl == g.params[1]['name']
-    ctx.ob(rid, 'poll_and_run:no-deadline-only-when-armed', okp, loc=g.loc,
-           detail='method->poll is given no deadline only on the edge iv_fd_timeout_check(...) != 0; otherwise it gets the caller\'s deadline', fn=g.q)
+    cs = h.contexts(prog, _method_poll)
+    if not cs:
+        raise AnalysisBroken('no function calls method->poll')
+    r1, r2, r3, r4, r5 = [], [], [], [], []
+    for (root, g, sites) in cs:
+        absn = _deadline_param(root)
+        copies = h.ptr_copies(g)
+        org = h.Origins(g)
+
+        def klass(z):
+            if h.deref_of_var(z) == absn:
+                return 'A'
+            return 'B' if last_member(z) == ('iv_state', 'last_abs') else None
+        cmps, cnt_keys, slot_keys, arm_keys, poll_keys, empty_keys, other_ts, consts = [], set(), set(), set(), set(), set(), [], {0, 1}
+        for x0, cp in _all_exprs(g, copies):
+            for x in walk(x0):
+                k = x.get('k')
+                if k == 'bin' and x.get('op') in interp.CMP:
+                    if h.pair_order(x['l'], x['r'], cp, klass, ('=', '=')) is not None:
+                        cmps.append((x, cp))
+                    elif h.ts_operand(x['l'], cp) and h.ts_operand(x['r'], cp):
+                        other_ts.append(x)
+                    for (u, v) in ((x['l'], x['r']), (x['r'], x['l'])):
+                        if last_member(u) == ('iv_state', 'last_abs_count') and h.const_of(v) is not None:
+                            consts.add(h.const_of(v))
+                elif k == 'member' and last_member(x) == ('iv_state', 'last_abs_count'):
+                    cnt_keys.add(canon(x))
+                elif k == 'member' and last_member(x) == ('iv_fd_poll_method', 'set_poll_timeout'):
+                    slot_keys.add(canon(x))
+                elif k == 'call' and last_member(x.get('fnexpr')) == ('iv_fd_poll_method', 'set_poll_timeout'):
+                    arm_keys.add(canon(x))
+                elif k == 'call' and last_member(x.get('fnexpr')) == ('iv_fd_poll_method', 'poll'):
+                    poll_keys.add(canon(x))
+                elif k == 'call' and x.get('callee') == 'iv_list_empty':
+                    empty_keys.add(canon(x))
+        if not cnt_keys:
+            raise AnalysisBroken('%s: the repeat counter of the deadline (last_abs_count) is not consulted before method->poll' % root.name)
+        r1.append((root, bool(cmps) and not other_ts, sites[0], [canon(x) for x in other_ts]))
+
+        def deadline_kind(dl, e, env):
+            if dl is None:
+                return 'other:?'
+            ks = set()
+            for o_ in org.of(dl, (e['_b'], e['_i'])):
+                d = strip(o_)
+                if h.const_of(d) == 0:
+                    ks.add('none')
+                elif isinstance(d, dict) and d.get('k') == 'var' and d['name'] == absn:
+                    ks.add('request')
+                elif isinstance(d, dict) and d.get('k') == 'addr' and last_member(d['e']) == ('iv_state', 'last_abs'):
+                    ks.add('armed-copy')
+                else:
+                    ks.add('other:' + canon(o_))
+            if len(ks) == 1:
+                return ks.pop()
+            d = strip(dl)
+            if ks == {'none', 'request'} and d.get('k') == 'var' and d['name'] in env:
+                return 'none' if env[d['name']] == 0 else 'request'
+            return 'other:' + canon(dl)
+
+        def hook(e, env, asg, path):
+            log = path.setdefault('log', [])
+            if e['ev'] != 'call':
+                return
+            ck = callback_kind(e)
+            cur = {path['mem'].get(k) for k in cnt_keys}
+            if ck == ('method', 'clear_poll_timeout'):
+                log.append(('clear', None, e, cur))
+            elif ck == ('method', 'set_poll_timeout'):
+                log.append(('arm', deadline_kind(e['args'][1] if len(e['args']) > 1 else None, e, env), e, cur))
+            elif ck == ('method', 'poll'):
+                log.append(('poll', deadline_kind(e['args'][2] if len(e['args']) > 2 else None, e, env), e, cur))
+        runs = []
+        for has_timer in (True, False):
+            for nonnull in (True, False):
+                for o in (h.ORDERS if nonnull else [('=', '=')]):
+                    orders = {}
+                    for (x, cp) in cmps:
+                        orders[(canon(x['l']), canon(x['r']))] = h.pair_order(x['l'], x['r'], cp, klass, o)
+                    for cnt in range(0, max(consts) + 2):
+                        for armres in (True, False):
+                            for pollres in (True, False):
+                                bools = {absn: nonnull}
+                                bools.update({k: has_timer for k in slot_keys})
+                                bools.update({k: armres for k in arm_keys})
+                                bools.update({k: pollres for k in poll_keys})
+                                bools.update({k: True for k in empty_keys})
+                                ints = {k: cnt for k in cnt_keys}
+                                for path in h.explore(g, orders=orders, bools=bools, ints=ints, on_event=hook):
+                                    if path['end'] not in ('fatal', 'cut') and any(x[0] == 'poll' for x in path.get('log', [])):
+                                        runs.append((has_timer, nonnull, o, cnt, armres, pollres, path))
+        # the armed state: the counter value with which the code arms the kernel timer
+        armed_vals = set()
+        for (has_timer, nonnull, o, cnt, armres, pollres, path) in runs:
+            for x in path['log']:
+                if x[0] == 'arm':
+                    armed_vals |= x[3]
+        if len(armed_vals) > 1 or None in armed_vals:
+            raise AnalysisBroken('%s: method->set_poll_timeout is called with the repeat counter at %s (one definite value expected)'
+                                 % (root.name, sorted(map(str, armed_vals))))
+        # no path arms the kernel timer: then no counter value means "armed" and every wait without a deadline is unjustified
+        armed = armed_vals.pop() if armed_vals else None
+        for (has_timer, nonnull, o, cnt, armres, pollres, path) in runs:
+            log = path['log']
+            pi = [i for i, x in enumerate(log) if x[0] == 'poll'][0]
+            kind, site = log[pi][1], log[pi][2]
+            clears = [i for i in range(pi) if log[i][0] == 'clear']
+            arms = [i for i in range(pi) if log[i][0] == 'arm']
+            # the deadline handed to the kernel timer equals the request: it is the request, or the recorded deadline
+            # on a path where the two compared equal
+            arm_ok = bool(arms) and (log[arms[-1]][1] == 'request' or (log[arms[-1]][1] == 'armed-copy' and nonnull and o == ('=', '=')))
+            arm_last = bool(arms) and (not clears or arms[-1] > clears[-1])
+            armed_now = arm_last and arm_ok and armres
+            kept = armed is not None and cnt == armed and not clears
+            cfg = 'method %s a kernel timer, request %s, counter %d, set_poll_timeout -> %d' % (
+                'with' if has_timer else 'without', ('NULL' if not nonnull else 'vs armed (sec%s, nsec%s)' % o), cnt, armres)
+            r4.append((root, kind == 'request' or (kind == 'none' and has_timer and (kept or armed_now)), site, cfg + ': deadline ' + kind))
+            if kind == 'none' and not arms:
+                r2.append((root, kept and (not nonnull or h.lex(o) in '=>'), site, cfg))
+            if arms:
+                r3.append((root, (armres or kind == 'request') and arm_ok and arm_last, site,
+                           cfg + ': set_poll_timeout(%s), deadline %s' % (log[arms[-1]][1], kind)))
+            if kind == 'none' and pollres and path['end'] == 'ret':
+                cur = {path['mem'].get(k) for k in cnt_keys}
+                r5.append((root, armed is not None and None not in cur and armed not in cur, site, cfg + ': counter afterwards %s' % sorted(map(str, cur))))
+
+    missing = []
+
+    def emit(inst, rows, text):
+        bad = [r_ for r_ in rows if not r_[1]]
+        if not rows:
+            missing.append(inst)
+            return
+        first = (bad or rows)[0]
+        ctx.ob(rid, inst, not bad, loc=first[2]['loc'], fn=first[0].q,
+               detail=text + (' -- violated for: ' + '; '.join(str(r_[3]) for r_ in bad[:4]) if bad else ' (%d evaluated paths)' % len(rows)))
+    emit('timeout_check:compares-request-with-armed', r1,
+         'the time values compared before method->poll are the requested deadline and the armed deadline (st->last_abs), field by field')
+    emit('timeout_check:keep-armed-only-if-not-earlier', r2,
+         'waiting without a deadline and without (re-)arming happens only with the kernel timer armed (counter at the arming value, not '
+         'cleared) and a requested deadline that is not earlier than the armed one (or none)')
+    emit('timeout_check:arming-result-propagated', r3,
+         'when method->set_poll_timeout is called it gets the requested deadline, is not undone by a clear, and an answer 0 (not armed, e.g. after '
+         'falling back to a method without a kernel timer) makes method->poll get the deadline itself')
+    emit('poll_and_run:no-deadline-only-when-armed', r4,
+         'method->poll gets the caller\'s deadline, or none only while a kernel timer is armed (kept or freshly armed with a non-zero answer)')
+    if rid == 'R-C04f':
+        emit('poll_and_run:fired-timer-disarms', r5,
+             'when the wait without a deadline reports "run timers" (the one-shot kernel timer fired) the repeat counter leaves the armed '
+             'value before the function returns, so the next wait is not left without a deadline and without a timer')
+    if missing:
+        raise AnalysisBroken('keep_armed: no evaluated path exercises %s' % ', '.join(missing))
+
+
+SLOT_STOP = ('iv_event_run_pending_events', 'iv_fd_make_ready', 'iv_time_get')
+MS_WAITS = {'poll': 2, 'epoll_wait': 3}            # wait primitives with a millisecond timeout: argument index
+WAITS = ('epoll_wait', 'epoll_pwait2', 'poll', 'ppoll')
+
+
+def _slot_contexts(prog):
+    """[(table, slots, slot function, slot function with the method's helpers inlined)] for every poll method"""
+    out = []
+    for t, slots in sorted(prog.method_tables().items()):
+        if not slots.get('poll'):
+            continue
+        f = prog.resolve(*slots['poll'])
+        if f is None:
+            raise AnalysisBroken('%s: poll slot does not resolve' % t)
+        out.append((t, slots, f, h.inline_root(prog, f, stop=SLOT_STOP, method_table=t, expand_methods=True)))
+    if not out:
+        raise AnalysisBroken('no poll method table found')
+    return out
+
+
+NOW = (1000, 600000000)
 
 
 def rounding(ctx, rid='R-C04g'):
+    """What reaches the kernel: for every poll method whose wait primitive takes milliseconds, the slot function (helpers
+    inlined: conversion to relative time, conversion to milliseconds, wrappers) is executed on concrete values -- loop
+    clock NOW (valid), deadline NOW + (sec, nsec) -- along every path to the wait primitive, and the timeout argument
+    observed there must be the remaining time rounded up to the next millisecond (0 for a deadline in the past)."""
     prog = ctx.prog
-    f = prog.fn('to_msec')
-    rets = [e for (pb, pi, e) in exits_of(f) if 'value' in e and any(x.get('k') == 'member' and x['field'] == 'tv_nsec' for x in walk(e['value']))]
-    if not rets:
-        raise AnalysisBroken('to_msec: conversion expression not found')
-    expr = rets[0]['value']
-    names = sorted({canon(x) for x in walk(expr) if x.get('k') == 'member' and x['field'] in ('tv_sec', 'tv_nsec')})
-    sec = [n_ for n_ in names if n_.endswith('tv_sec')][0]
-    nsec = [n_ for n_ in names if n_.endswith('tv_nsec')][0]
-    for s_, n_ in ((0, 0), (0, 1), (0, 999999), (0, 1000000), (0, 1000001), (3, 500000), (7, 999999999)):
-        try:
-            v = interp.evaluate(expr, interp.Assignment(ints={sec: s_, nsec: n_}), {})
-        except interp.Undecided as u:
-            raise AnalysisBroken('to_msec: conversion not evaluable (%s)' % u)
-        want = 1000 * s_ + (n_ + 999999) // 1000000
-        ctx.ob(rid, 'to_msec(sec=%d,nsec=%d)' % (s_, n_), v == want, loc=rets[0]['loc'],
-               detail='converted to %s ms; rounding up gives %d ms (a smaller value wakes the loop before anything is due: it spins)' % (v, want), fn=f.q)
+    vectors = [(0, 0), (0, 1), (0, 999999), (0, 1000000), (0, 1000001), (3, 500000), (7, 999999999)]
+    past = [(-1, 0), (0, -1), (-2, 400000001)]
+    seen = {}
+    nsinks = 0
+    for (t, slots, f, g) in _slot_contexts(prog):
+        sinks = [e for e in g.events() if is_call(e, tuple(MS_WAITS))]
+        if not sinks:
+            continue
+        nsinks += 1
+        absn = _deadline_param(f)
+        copies = h.ptr_copies(g)
+        keys = {('A', 'tv_sec'): set(), ('A', 'tv_nsec'): set(), ('B', 'tv_sec'): set(), ('B', 'tv_nsec'): set()}
+        valid_keys, empty_keys = set(), set()
+        for x0, cp in _all_exprs(g, copies):
+            for x in walk(x0):
+                if x.get('k') == 'member' and x.get('field') in h.TS_FIELDS:
+                    z = h.ts_operand(x, cp)
+                    if z and h.deref_of_var(z[0]) == absn:
+                        keys[('A', z[1])] |= {canon(x), h.ts_key(z[0], z[1])}
+                    elif z and last_member(z[0]) == ('iv_state', 'time'):
+                        keys[('B', z[1])] |= {canon(x), h.ts_key(z[0], z[1])}
+                elif x.get('k') == 'member' and last_member(x) == ('iv_state', 'time_valid'):
+                    valid_keys.add(canon(x))
+                elif x.get('k') == 'call' and x.get('callee') == 'iv_list_empty':
+                    empty_keys.add(canon(x))
+
+        def hook(e, env, asg, path, keys=keys, copies=copies):
+            if h.is_clock_read(e, copies.get((e['_b'], e['_i']), {})):
+                # the clock is read again on this path (fallback to another wait primitive): it still shows NOW
+                for k in keys[('B', 'tv_sec')]:
+                    path['mem'][k] = NOW[0]
+                for k in keys[('B', 'tv_nsec')]:
+                    path['mem'][k] = NOW[1]
+            if is_call(e, tuple(MS_WAITS)):
+                try:
+                    path['ms'] = path['eval'](e['args'][MS_WAITS[e['callee']]])
+                except (interp.Undecided, IndexError):
+                    path['ms'] = None
+                path['sink'] = e
+                raise h.Stop()
+        for (s_, n_) in vectors + past:
+            tot = NOW[0] * 1000000000 + NOW[1] + s_ * 1000000000 + n_
+            dl = (tot // 1000000000, tot % 1000000000)
+            ints = {}
+            for k in keys[('A', 'tv_sec')]:
+                ints[k] = dl[0]
+            for k in keys[('A', 'tv_nsec')]:
+                ints[k] = dl[1]
+            for k in keys[('B', 'tv_sec')]:
+                ints[k] = NOW[0]
+            for k in keys[('B', 'tv_nsec')]:
+                ints[k] = NOW[1]
+            for k in valid_keys:
+                ints[k] = 1
+            bools = {absn: True}
+            bools.update({k: True for k in empty_keys})
+            for path in h.explore(g, bools=bools, ints=ints, on_event=hook, goal_blocks={e['_b'] for e in sinks}):
+                if 'sink' in path:
+                    seen.setdefault((s_, n_), []).append((path['ms'], path['sink'], f))
+    if not nsinks:
+        raise AnalysisBroken('no poll method waits with a millisecond timeout')
+    for (s_, n_) in vectors + past:
+        rem = s_ * 1000000000 + n_
+        want = 0 if rem <= 0 else (rem + 999999) // 1000000
+        got = seen.get((s_, n_), [])
+        if not got:
+            raise AnalysisBroken('rounding: the wait primitive is not reached for remaining time (%d s, %d ns)' % (s_, n_))
+        bad = [x for x in got if x[0] != want]
+        first = (bad or got)[0]
+        name = 'to_msec(sec=%d,nsec=%d)' % (s_, n_) if (s_, n_) in vectors else 'to_msec(past:sec=%d,nsec=%d)' % (s_, n_)
+        ctx.ob(rid, name, not bad, loc=first[1]['loc'], fn=first[2].q,
+               detail='timeout given to %s: %s ms; the remaining time rounded up is %d ms (a smaller value wakes the loop before anything is due: it spins; '
+                      'a negative one never wakes it)' % ('/'.join(sorted({x[1]['callee'] for x in got})), sorted({str(x[0]) for x in got}), want))
+
+
+LE_MEMBER = (('iv_timer_', 'list_expired'), ('iv_timer', 'list_expired'))
+
+
+def _expired_link(e):
+    """an object is linked into a list through its `list_expired` member (it joins the batch of expired timers): a list
+    insertion primitive on &X->list_expired, or -- open-coded -- the address of X's node stored into a neighbour's
+    next/prev"""
+    if is_call(e, ('iv_list_add', 'iv_list_add_tail')) and h.list_arg_member(e) in LE_MEMBER:
+        return True
+    if e['ev'] == 'store' and e.get('op') == '=' and last_member(e['lhs']) in (('iv_list_head', 'next'), ('iv_list_head', 'prev')):
+        r = strip(e.get('rhs'))
+        return isinstance(r, dict) and r.get('k') == 'addr' and last_member(r['e']) in LE_MEMBER
+    return False
+
+
+def _heap_leave(e):
+    """a timer leaves the heap: the unregister API is called, or (its body inlined) the timer count is lowered"""
+    return is_call(e, 'iv_timer_unregister') or (h.is_store_of(e, 'iv_state', 'num_timers') and
+                                                 (e.get('op') in ('--', '-=') or (e.get('op') == '=' and 'rhs' in e)))
+
+
+EXPIRY_STOP = ('iv_timer_unregister', 'iv_timer_register', 'iv_time_get')
+
+
+def _expiry_contexts(prog):
+    cs = h.contexts(prog, _expired_link, stop=EXPIRY_STOP)
+    if not cs:
+        raise AnalysisBroken('no function links a timer into an expired batch (list_expired)')
+    return cs
+
+
+def _timer_of_move(e):
+    """the timer object expression of a move event (link into the batch / removal from the heap); None = any timer"""
+    if _expired_link(e):
+        return h.member_base(strip(e['args'][0] if e['ev'] == 'call' else e['rhs'])['e'])
+    if is_call(e, 'iv_timer_unregister'):
+        return e['args'][0] if e.get('args') else None
+    return None
+
+
+def _inlined_unregisters(prog, g):
+    """{instance number: (enter event, timer argument)} of the inlined calls whose body lowers the timer count: the
+    unregister operation when it is not the API call itself but a helper inlined into the context"""
+    out = {}
+    for e in g.events():
+        if e['ev'] != 'enter':
+            continue
+        keys = {(e.get('fn'), e.get('loc'), t) for t in e.get('targets', ())}
+        if not any(_heap_leave(x) and not is_call(x, 'iv_timer_unregister') and any(tuple(c) in keys for c in (x.get('chain') or []))
+                   for x in g.events()):
+            continue
+        arg = None
+        for t in e.get('targets', ()):
+            tf = prog.funcs.get(t)
+            idx = [i for i, p_ in enumerate(tf.params) if p_.get('ptr') and p_.get('record') in h.TIMER_RECS] if tf else []
+            if len(idx) == 1 and idx[0] < len(e.get('args', [])):
+                arg = e['args'][idx[0]]
+        if arg is not None:
+            out[e['inst']] = (e, arg)
+    return out
+
+
+def _move_identity(prog, g, org, m):
+    """(spellings of the timer a move event is about, the locals among them) -- None: unknown timer"""
+    x = _timer_of_move(m)
+    pt = (m['_b'], m['_i'])
+    if x is None and not is_call(m, 'iv_timer_unregister'):
+        # heap removal inlined from a helper: the timer is what the outermost inlined call was given
+        x = h.enter_arg(prog, g, m)
+        if x is not None:
+            ent = [e for e in g.events() if e['ev'] == 'enter' and not e.get('chain') and e.get('loc') == m['chain'][0][1]]
+            pt = (ent[0]['_b'], ent[0]['_i']) if ent else pt
+    if x is None:
+        return None, None
+    xn = h.obj_names(x, org, pt)
+    lv = {y['name'] for e in g.events() for y in walk(e) if y.get('k') == 'var' and y.get('vk') in ('local', 'param')}
+    lv |= {e['name'] for e in g.events() if e['ev'] == 'decl'}
+    return xn, xn & lv
 
 
 def expiry(ctx):
+    """Never early.  In every context that links a timer X into the expired batch (and removes it from the heap), the
+    branch conditions crossed since X was defined exclude every order of (X.expires, loop clock) in which the expiry is
+    later than the clock -- evaluated over the 9 orders of (seconds, nanoseconds) with the comparison helper inlined,
+    so it does not matter how (or in which function) the comparison is spelled; and the clock value those comparisons
+    read is valid (read from the clock / tested valid since it was invalidated or user code ran)."""
     prog = ctx.prog
-    f = prog.fn('iv_run_timers')
-    hd = holding(f)
-    moves = [e for e in f.events() if is_call(e, 'iv_timer_unregister') or
-             (is_call(e, ('iv_list_add', 'iv_list_add_tail')) and c01._list_arg_member(e) == ('iv_timer_', 'list_expired'))]
-    if len(moves) < 2:
-        raise AnalysisBroken('iv_run_timers: expiry steps not found')
-    for e in moves:
-        A = hd.get((e['_b'], e['_i']), frozenset())
-        ok = False
-        for a in A:
-            if a[0] == '==' and a[2] == '0' and a[1].startswith('timespec_gt(&') and a[1].endswith('->expires, &st->time)'):
-                ok = True
-        ctx.ob('R-C04a', 'iv_run_timers:%s-not-before-expiry' % ('unregister' if is_call(e, 'iv_timer_unregister') else 'expire'), ok, loc=e['loc'],
-               detail='%s is on the edge timespec_gt(&t->expires, &st->time) == 0' % describe(e), path=None if ok else path_to(f, e), fn=f.q)
-    # clock validity: every path to the comparison passed iv_time_get(&st->time) or the time_valid != 0 edge
-    cmps = [e for e in f.events() if is_call(e, 'timespec_gt')]
-    def tr(e, s):
-        if is_call(e, 'iv_time_get') and canon(e['args'][0]) == '&st->time':
-            return True
-        if e['ev'] == 'store' and last_member(e['lhs']) == ('iv_state', 'time_valid') and canon(e.get('rhs')) == '0':
-            return False
-        if e['ev'] == 'call' and 'fnexpr' in e:
-            return False        # a handler may have invalidated the clock
-        return s
-    def edge(blk, si, s):
-        if blk.term and blk.term.get('cond') is not None and len(blk.succ) == 2:
-            for (op, lc, rc, l, r) in norm_cond(blk.term['cond'], si == 0):
-                if last_member(l) == ('iv_state', 'time_valid') and op == '!=' and rc == '0':
-                    return True
-        return s
-    _, ev_in = forward(f, False, tr, lambda a, b: a and b, edge=edge)
-    for c in cmps:
-        ctx.ob('R-C04a', 'iv_run_timers:clock-valid-at-test', bool(ev_in.get((c['_b'], c['_i']))), loc=c['loc'],
-               detail='st->time was read from the clock (or known valid) on every path to the expiry test', fn=f.q)
+    table = {}
+    for (root, g, links) in _expiry_contexts(prog):
+        copies = h.ptr_copies(g)
+        moves = links + [e for e in g.events() if _heap_leave(e)]
+        bysite = {}
+        org = h.Origins(g)
+        for m in moves:
+            xn, xlocals = _move_identity(prog, g, org, m)
+
+            def klass_at(cp, pt, xn=xn):
+                def klass(z):
+                    lm = last_member(z)
+                    if lm in (('iv_timer_', 'expires'), ('iv_timer', 'expires')) and (xn is None or h.same_obj(h.member_base(z), xn, org, pt)):
+                        return 'A'
+                    if lm == ('iv_state', 'time'):
+                        return 'B'
+                    return None
+                return klass
+            osets = h.order_sets(prog, g, copies, klass_at, reset=lambda e, xl=xlocals: h.redefines(e, xl))
+            S = osets.get((m['_b'], m['_i']))
+            late = sorted(o for o in (S or ()) if h.lex(o) == '>')
+            kind = 'expire' if _expired_link(m) else 'unregister'
+            if kind == 'expire':
+                for o in h.ORDERS:
+                    table.setdefault(o, []).append((S is not None and o in S, m, root))
+            k = (kind, m['loc'])
+            prev = bysite.get(k, (True, m, []))
+            bysite[k] = (prev[0] and S is not None and not late, prev[1], prev[2] + late)
+        for (kind, loc), (ok, m, late) in sorted(bysite.items()):
+            ctx.ob('R-C04a', '%s:%s-not-before-expiry' % (root.name, kind), ok, loc=loc,
+                   detail='%s is reached only under orders of (expiry, loop clock) with expiry <= clock; orders (sec, nsec) with a later expiry '
+                          'that the branch conditions since the timer was defined do not exclude: %s' % (describe(m), late or 'none'),
+                   path=None if ok else path_to(g, m), fn=root.q)
+        # clock validity at every comparison of an expiry with the loop clock
+        valid = h.clock_valid(prog, g, copies)
+
+        def klass_any(z):
+            lm = last_member(z)
+            if lm in (('iv_timer_', 'expires'), ('iv_timer', 'expires')):
+                return 'A'
+            return 'B' if lm == ('iv_state', 'time') else None
+        tests = []
+        for b, blk in g.blocks.items():
+            if blk.term and blk.term.get('cond') is not None and len(blk.succ) == 2:
+                cp = copies.get((b, len(blk.events)), {})
+                if h.compares_in(prog, blk.term['cond'], cp, klass_any):
+                    tests.append((b, blk))
+        # a snapshot of the loop clock in a local struct is a read of the clock value: it must be valid there
+        snaps = [e for e in g.events() if e['ev'] == 'store' and e.get('op') == '=' and strip(e['lhs']).get('k') == 'var'
+                 and strip(e['lhs']).get('record') == 'timespec' and not strip(e['lhs']).get('ptr') and last_member(e.get('rhs')) == ('iv_state', 'time')]
+        okv = bool(tests) and all(valid.get((b, len(blk.events))) for (b, blk) in tests) and all(valid.get((e['_b'], e['_i'])) for e in snaps)
+        badt = [blk for (b, blk) in tests if not valid.get((b, len(blk.events)))]
+        ctx._c04_expiry_table = table
+        ctx.ob('R-C04a', '%s:clock-valid-at-test' % root.name, okv, loc=(badt[0].term.get('loc') if badt else (tests[0][1].term.get('loc') if tests else root.loc)),
+               detail='the cached loop time was read from the clock (or tested valid) on every path to each of the %d comparisons of an expiry with it' % len(tests), fn=root.q)
+
+
+def _validates(e):
+    """a store that marks the cached loop time valid (anything but the constant 0)"""
+    return h.is_store_of(e, 'iv_state', 'time_valid') and not (e.get('op') == '=' and h.const_of(e.get('rhs')) == 0)
+
+
+def expiry_table(ctx, rid='R-C04a.cmp'):
+    """The expiry decision as a truth table, evaluated in context: for each of the 9 orders of (expiry, loop clock) over
+    (seconds, nanoseconds), the link into the expired batch is reachable since the timer's definition iff the expiry is
+    not later than the clock (so a timer that is due now is not left waiting, and the test is exactly the strict order)."""
+    table = getattr(ctx, '_c04_expiry_table', None)
+    if not table:
+        raise AnalysisBroken('expiry decision table not available')
+    for o in h.ORDERS:
+        rows = table[o]
+        want = h.lex(o) != '>'
+        bad = [r_ for r_ in rows if r_[0] != want]
+        first = (bad or rows)[0]
+        ctx.ob(rid, 'expiry-test:sec%s,nsec%s' % o, not bad, loc=first[1]['loc'], fn=first[2].q,
+               detail='with expiry %s clock the timer %s moved to the expired batch (%s)' % (
+                   {'<': 'before', '=': 'equal to', '>': 'after'}[h.lex(o)], 'must be' if want else 'must not be',
+                   'it is not: a due timer is left waiting' if (bad and want) else ('it is' if bad else 'ok')))
 
 
 def invalidate(ctx):
     prog = ctx.prog
-    for t, slots in sorted(prog.method_tables().items()):
-        f = prog.resolve(*slots['poll'])
-        g = Inliner(prog, method_table=t, expand_methods=True, stop=lambda x: x.name in ('iv_event_run_pending_events', 'iv_fd_make_ready')).inline(f)
-        waits = [e for e in g.events() if is_call(e, ('epoll_wait', 'epoll_pwait2', 'poll', 'ppoll'))]
+    for (t, slots, f, g) in _slot_contexts(prog):
+        waits = [e for e in g.events() if is_call(e, WAITS)]
         if not waits:
             raise AnalysisBroken('%s: wait primitive not found' % f.name)
         ok = True
         for w in waits:
-            mp = must_pass(g, lambda e: e['ev'] == 'store' and last_member(e['lhs']) == ('iv_state', 'time_valid') and canon(e.get('rhs')) == '0',
-                           start_event=w)
+            mp = must_pass(g, h.invalidates, start_event=w)
             for (pb, pi, e) in exits_of(g):
                 if mp.get((pb, pi)) is False:
                     ok = False
         ctx.ob('R-C04b', '%s:%s' % (t.replace('iv_fd_poll_method_', ''), f.name), ok, loc=f.loc,
                detail='time_valid = 0 on every path from the kernel wait (%s) to a return' % '/'.join(sorted({w['callee'] for w in waits})), fn=f.q)
-    ws = {fn.name for (fn, e) in prog.writers_of('iv_state', 'time_valid')}
-    allowed = {'__iv_invalidate_now', 'iv_validate_now', '__iv_now_location_valid', 'to_relative', 'iv_run_timers'}
-    ctx.ob('R-C04b', 'time_valid:writers', ws <= allowed, loc=prog.fn('__iv_invalidate_now').loc, detail='writers of the validity flag: %s' % sorted(ws))
+    # Who may call the cached time valid: only code that reads the clock into it.  Evaluated at every store of a non-zero
+    # value to the validity flag, in every calling context (helpers inlined): the clock was read into st->time since the
+    # last invalidation, or is read on every path from the store before user code runs / the function returns.
+    cs = h.contexts(prog, _validates, stop=('iv_time_get',))
+    if not cs:
+        raise AnalysisBroken('no store marks the cached loop time valid')
+    bad, n = [], 0
+    for (root, g, sites) in cs:
+        copies = h.ptr_copies(g)
+
+        def fresh_tr(e, s_, copies=copies, g=g):
+            if h.is_clock_read(e, copies.get((e['_b'], e['_i']), {})):
+                return True
+            if h.invalidates(e) or h.opaque_touch(prog, g, e):
+                return False
+            return s_
+        _, fresh = forward(g, False, fresh_tr, lambda p, q: p and q)
+        for s_ in sites:
+            n += 1
+            if fresh.get((s_['_b'], s_['_i'])):
+                continue
+            mp = must_pass(g, lambda e, copies=copies: h.is_clock_read(e, copies.get((e['_b'], e['_i']), {})), start_event=s_)
+            okp = True
+            for bid, blk in g.blocks.items():
+                for i, e in enumerate(blk.events):
+                    if ((e['ev'] == 'ret' and not e.get('chain')) or (e['ev'] == 'call' and e is not s_ and h.opaque_touch(prog, g, e) and not is_call(e, 'iv_time_get'))) \
+                            and mp.get((bid, i)) is False:
+                        okp = False
+            if mp.get((g.exit, 0)) is False:
+                okp = False
+            if not okp:
+                bad.append((root, s_))
+    first = (bad or [(cs[0][0], cs[0][2][0])])[0]
+    ctx.ob('R-C04b', 'time_valid:writers', not bad, loc=first[1]['loc'], fn=first[0].q,
+           detail='each of the %d stores (over all calling contexts) that mark the cached loop time valid is accompanied by a read of the clock into it%s'
+                  % (n, '' if not bad else ': not so in ' + ', '.join(sorted({'%s@%s' % (r.name, relpath(e['loc'])) for r, e in bad}))))
+
+
+def _timer_runners(prog):
+    return sorted({root.name for (root, g, links) in _expiry_contexts(prog)})
+
+
+def _pollers(prog):
+    cs = h.contexts(prog, _method_poll)
+    if not cs:
+        raise AnalysisBroken('no function calls method->poll')
+    return sorted({root.name for (root, g, sites) in cs})
 
 
 def rerun(ctx):
     prog = ctx.prog
-    for t, slots in sorted(prog.method_tables().items()):
-        f = prog.resolve(*slots['poll'])
-        g = Inliner(prog, method_table=t, expand_methods=True, stop=lambda x: x.name in ('iv_event_run_pending_events', 'iv_fd_make_ready')).inline(f)
+    for (t, slots, f, g) in _slot_contexts(prog):
+        short = t.replace('iv_fd_poll_method_', '')
         has_timer = bool(slots.get('set_poll_timeout'))
         if not has_timer:
-            res = delta_analysis(g, [])
-            bad = [(e, rc) for (e, d, rc, p) in res.rets if not (isinstance(rc, tuple) and rc[1] != 0) and rc != 'nz']
-            ctx.ob('R-C04c', '%s:returns-nonzero' % t.replace('iv_fd_poll_method_', ''), not bad and bool(res.rets),
+            res = h.return_signs(g)
+            bad = [(e, v) for (e, v) in res if v != 'NZ']
+            ctx.ob('R-C04c', '%s:returns-nonzero' % short, not bad and bool(res),
                    loc=bad[0][0]['loc'] if bad else f.loc,
-                   detail='every return of %s asks the caller to run timers (also on EINTR): %s' % (f.name, sorted({str(rc) for (_, _, rc, _) in res.rets})), fn=f.q)
+                   detail='every return of %s asks the caller to run timers (also on EINTR): %s' % (f.name, sorted({v for (_, v) in res})), fn=f.q)
         else:
-            absn = f.params[2]['name']
-            res = delta_analysis(g, [], init_env={absn: 'nz'}, extra_relevant=[absn])
-            bad = [(e, rc) for (e, d, rc, p) in res.rets if not (isinstance(rc, tuple) and rc[1] != 0) and rc != 'nz']
-            ctx.ob('R-C04c', '%s:deadline-given-returns-nonzero' % t.replace('iv_fd_poll_method_', ''), not bad and bool(res.rets),
+            absn = _deadline_param(f)
+            res = h.return_signs(g, init={absn: 'NZ'})
+            bad = [(e, v) for (e, v) in res if v != 'NZ']
+            ctx.ob('R-C04c', '%s:deadline-given-returns-nonzero' % short, not bad and bool(res),
                    loc=bad[0][0]['loc'] if bad else f.loc,
-                   detail='given a deadline, every return of %s asks the caller to run timers: %s' % (f.name, sorted({str(rc) for (_, _, rc, _) in res.rets})), fn=f.q)
-            # consuming the timer descriptor sets the flag
-            reads = [e for e in g.events() if is_call(e, 'read') and 'timer_fd' in canon(e['args'][0])]
+                   detail='given a deadline, every return of %s asks the caller to run timers: %s' % (f.name, sorted({v for (_, v) in res})), fn=f.q)
+            # consuming the kernel timer's token: from the read of the timer descriptor every path returns non-zero
+            reads = [e for e in g.events() if is_call(e, 'read') and e.get('args') and (last_member(e['args'][0]) or ('', ''))[1] == 'timer_fd']
             okr = bool(reads)
+            vals = set()
             for r in reads:
-                mp = must_pass(g, lambda e: e['ev'] == 'store' and canon(e['lhs']).startswith('run_timers') and canon(e.get('rhs')) == '1', start_event=r)
-                # until the next batch entry / return
-                lps = loops(g)
-                h = innermost_loop(g, r['_b'], lps)
-                for b in lps.get(h, ()):
-                    for si, s_ in enumerate(g.blocks[b].succ):
-                        if s_ == h and mp.get((b, len(g.blocks[b].events))) is False:
-                            okr = False
-            ctx.ob('R-C04c', '%s:timer-token-sets-run-timers' % t.replace('iv_fd_poll_method_', ''), okr, loc=reads[0]['loc'] if reads else f.loc,
-                   detail='consuming the timer descriptor makes the poll report "run timers"', fn=f.q)
-    # iv_main
-    f = prog.fn('iv_main')
-    poll = [e for e in f.events() if is_call(e, 'iv_fd_poll_and_run')]
-    runs = [e for e in f.events() if is_call(e, 'iv_run_timers')]
-    if not poll:
-        raise AnalysisBroken('iv_main: poll not found')
-    if not runs:
-        ctx.ob('R-C04c', 'iv_main:timers-run-when-poll-said-so', False, loc=f.loc,
-               detail='iv_main never calls iv_run_timers: expired timers are not dispatched', fn=f.q)
-        return
-    st = [e for e in f.events() if e['ev'] == 'store' and strip(e.get('rhs', {})).get('k') == 'call' and strip(e['rhs']).get('callee') == 'iv_fd_poll_and_run']
-    var = canon(st[0]['lhs']) if st else None
-    hd = holding(f)
-    lps = loops(f)
-    h = innermost_loop(f, poll[0]['_b'], lps)
-    # the timer run is skipped only on the var == 0 edge; it lies before the exit test / poll in the iteration
-    ok = var is not None
-    def tr(e, s):
-        return True if e in runs else s
-    def edge(blk, si, s):
-        if blk.succ[si] == h:
-            return False
-        if blk.term and blk.term.get('cond') is not None and len(blk.succ) == 2:
-            for (op, lc, rc, l, r) in norm_cond(blk.term['cond'], si == 0):
-                if lc == var and op == '==' and rc == '0':
-                    return True
-        return s
-    _, ev_in = forward(f, False, tr, lambda a, b: a and b, edge=edge)
-    ok = ok and bool(ev_in.get((poll[0]['_b'], poll[0]['_i'])))
-    inits = [e for e in f.events() if e['ev'] == 'store' and canon(e['lhs']) == var and e not in st]
-    ok = ok and all(canon(e.get('rhs')) == '1' for e in inits) and bool(inits)
-    ctx.ob('R-C04c', 'iv_main:timers-run-when-poll-said-so', ok, loc=runs[0]['loc'],
-           detail='iv_run_timers runs at loop head unless the previous poll returned 0 (first iteration: always), before the exit test and the next poll', fn=f.q)
+                res = h.return_signs(g, start_event=r)
+                if not res:
+                    okr = False
+                for (e, v) in res:
+                    vals.add(v)
+                    if v != 'NZ':
+                        okr = False
+            ctx.ob('R-C04c', '%s:timer-token-sets-run-timers' % short, okr, loc=reads[0]['loc'] if reads else f.loc,
+                   detail='after the timer descriptor was read (the kernel timer fired) every return of the poll reports "run timers": %s' % sorted(vals), fn=f.q)
+    _main_loop(ctx)
+
+
+def _main_loop(ctx):
+    """Timers are evaluated between any two waits unless the earlier wait said there is nothing to do, and before the first
+    wait.  Disjunctive forward analysis over (timers still to be evaluated, what integer locals hold: a constant, the
+    result P of the latest poll, or its negation): a call of the timer runner clears the need, a poll call raises it, an
+    edge on which a local holding P is zero (or one holding !P is non-zero) clears it; edges contradicting a constant
+    are infeasible.  No assumption on the loop form, on the name or polarity of the flag, or on where the runner is called."""
+    prog = ctx.prog
+    runners, pollers = _timer_runners(prog), _pollers(prog)
+
+    def is_poll(e):
+        return is_call(e, tuple(pollers))
+    cs = h.contexts(prog, is_poll, stop=tuple(runners) + tuple(pollers) + ('iv_get_soonest_timeout', 'iv_run_tasks'))
+    if not cs:
+        raise AnalysisBroken('nothing calls %s' % '/'.join(pollers))
+    for (root, g, sites) in cs:
+        def absval(x, env):
+            x = strip(x)
+            if not isinstance(x, dict):
+                return None
+            c = h.const_of(x)
+            if c is not None:
+                return ('c', c)
+            k = x.get('k')
+            if k == 'call' and x.get('callee') in pollers:
+                return 'P'
+            if k == 'var':
+                return env.get(x['name'])
+            if k == 'un' and x.get('op') == '!':
+                v = absval(x['e'], env)
+                if v == 'P':
+                    return 'NP'
+                if v == 'NP':
+                    return 'P'
+                if isinstance(v, tuple):
+                    return ('c', int(not v[1]))
+                return None
+            if k == 'bin' and x.get('op') in ('!=', '==') and h.const_of(x['r']) == 0:
+                v = absval(x['l'], env)
+                if x['op'] == '!=':
+                    return ('c', int(v[1] != 0)) if isinstance(v, tuple) else v
+                return absval({'k': 'un', 'op': '!', 'e': x['l']}, env)
+            return None
+
+        def tr(e, S):
+            out = set()
+            for (need, envk) in S:
+                env = dict(envk)
+                if e['ev'] == 'call' and is_poll(e):
+                    need = True
+                    env = {k: v for k, v in env.items() if v not in ('P', 'NP')}
+                elif is_call(e, tuple(runners)):
+                    need = False
+                elif e['ev'] == 'store':
+                    l = strip(e['lhs'])
+                    if l.get('k') == 'var':
+                        v = absval(e['rhs'], env) if e.get('op') == '=' and 'rhs' in e else None
+                        if v is None:
+                            env.pop(l['name'], None)
+                        else:
+                            env[l['name']] = v
+                elif e['ev'] == 'decl':
+                    env.pop(e['name'], None)
+                elif e['ev'] == 'call':
+                    for a in e.get('args', []):
+                        a = strip(a)
+                        if isinstance(a, dict) and a.get('k') == 'addr' and strip(a['e']).get('k') == 'var':
+                            env.pop(strip(a['e'])['name'], None)
+                out.add((need, tuple(sorted(env.items(), key=str))))
+            return frozenset(out)
+
+        def edge(blk, si, S):
+            if not (blk.term and blk.term.get('cond') is not None and len(blk.succ) == 2) or blk.term.get('cls') in ('SwitchStmt', 'MethodDispatch'):
+                return S
+            atoms = [a for a in norm_cond(blk.term['cond'], si == 0) if a[0] != 'const']
+            out = set()
+            # with no timer registered the evaluation is vacuous (the runner returns at once): such an edge discharges it
+            notimers = any(last_member(l) == ('iv_state', 'num_timers') and h.const_of(r) is not None and
+                           ((op in ('==', '<=') and h.const_of(r) == 0) or (op == '<' and h.const_of(r) == 1)) for (op, lc, rc, l, r) in atoms)
+            for (need, envk) in S:
+                env = dict(envk)
+                feasible = True
+                if notimers:
+                    need = False
+                for (op, lc, rc, l, r) in atoms:
+                    v = absval(l, env)
+                    cr = h.const_of(r)
+                    if v is None or cr is None:
+                        continue
+                    if isinstance(v, tuple):
+                        if not eval('%d %s %d' % (v[1], op, cr)):
+                            feasible = False
+                        continue
+                    nz = None
+                    if cr == 0 and op in ('!=', '>'):
+                        nz = True
+                    elif (cr == 0 and op in ('==', '<=')) or (cr == 1 and op == '<'):
+                        nz = False
+                    elif cr == 1 and op == '>=':
+                        nz = True
+                    if nz is None:
+                        continue
+                    if (v == 'P' and not nz) or (v == 'NP' and nz):
+                        need = False            # the latest poll returned 0: nothing to evaluate
+                if feasible:
+                    out.add((need, envk))
+            return frozenset(out) if out else None
+        _, ev_in = forward(g, frozenset({(True, ())}), tr, lambda p, q: p | q, edge=edge)
+        bysite = {}
+        for s_ in sites:
+            S = ev_in.get((s_['_b'], s_['_i']))
+            ok = S is not None and not any(need for (need, _) in S)
+            bysite[s_['loc']] = (bysite.get(s_['loc'], (True, s_))[0] and ok, s_)
+        for loc, (ok, s_) in sorted(bysite.items()):
+            ctx.ob('R-C04c', '%s:timers-run-when-poll-said-so' % root.name, ok, loc=loc,
+                   detail='on every path to %s the timers were evaluated (%s) since the previous wait returned non-zero, and before the first wait'
+                          % (describe(s_), '/'.join(runners)), path=None if ok else path_to(g, s_), fn=root.q)
 
 
 def once(ctx):
+    """Exactly-once structure, per definition of the timer variable (no loop shape, no statement order assumed): whenever
+    a timer X that was linked into the expired batch becomes visible to others (user code is entered, the function
+    returns, X is redefined), X has left the heap since its definition (iv_timer_unregister(X), or its body inlined:
+    the timer count lowered) and X->index holds 0, stored after the heap removal (index == 0 <=> in the batch is what
+    unregister-from-a-handler relies on)."""
     prog = ctx.prog
-    f = prog.fn('iv_run_timers')
-    lps = loops(f)
-    adds = [e for e in f.events() if is_call(e, ('iv_list_add', 'iv_list_add_tail')) and c01._list_arg_member(e) == ('iv_timer_', 'list_expired')]
-    for a in adds:
-        obj = canon(strip(strip(a['args'][0])['e'])['base'])
-        h = innermost_loop(f, a['_b'], lps)
-        def per(pred, site):
-            def tr(e, s):
-                return True if pred(e) else s
-            def edge(blk, si, s):
-                return False if blk.succ[si] == h else s
-            _, ev_in = forward(f, False, tr, lambda x, y: x and y, edge=edge)
-            return ev_in
-        ev1 = per(lambda e: is_call(e, 'iv_timer_unregister') and obj in names_of(e['args'][0]), a)
-        ctx.ob('R-C04d', 'iv_run_timers:leaves-heap-through-unregister', bool(ev1.get((a['_b'], a['_i']))), loc=a['loc'],
-               detail='iv_timer_unregister(%s) precedes the move to the expired batch' % obj, fn=f.q)
-        # index = 0 stored after the add in the same iteration (state-discriminated holder predicate)
-        mp = must_pass(f, lambda e: e['ev'] == 'store' and last_member(e['lhs']) == ('iv_timer_', 'index') and canon(e.get('rhs')) == '0'
-                       and canon(strip(e['lhs'])['base']) == obj, start_event=a)
-        bad = False
-        for b in lps.get(h, ()):
-            for si, s_ in enumerate(f.blocks[b].succ):
-                if s_ == h and mp.get((b, len(f.blocks[b].events))) is False:
-                    bad = True
-        ctx.ob('R-C04d', 'iv_run_timers:expired-stamp', not bad, loc=a['loc'],
-               detail='%s->index = 0 is stored with the link into the expired batch (index == 0 <=> in the batch)' % obj, fn=f.q)
+    for (root, g, links) in _expiry_contexts(prog):
+        res = {}
+        org = h.Origins(g)
+        inl = _inlined_unregisters(prog, g)
+
+        def pt(e):
+            return (e['_b'], e['_i'])
+        for a in links:
+            xn, xlocals = _move_identity(prog, g, org, a)
+
+            def reset(e, xl=xlocals):
+                return h.redefines(e, xl)
+
+            def unreg(e, xn=xn):
+                if is_call(e, 'iv_timer_unregister'):
+                    return bool(e.get('args')) and h.same_obj(e['args'][0], xn, org, pt(e))
+                if e['ev'] == 'leave' and e.get('inst') in inl:          # the same operation, inlined from a helper
+                    ent, arg = inl[e['inst']]
+                    return h.same_obj(arg, xn, org, pt(ent))
+                return _heap_leave(e) and not e.get('chain')             # open-coded in the context function itself
+
+            def is_stamp(e, xn=xn):
+                return e['ev'] == 'store' and last_member(e['lhs']) in (('iv_timer_', 'index'), ('iv_timer', 'index')) \
+                    and h.same_obj(h.member_base(e['lhs']), xn, org, pt(e))
+
+            def tr2(e, S, xn=xn):
+                if reset(e):
+                    return frozenset({(False, False, False)})
+                if unreg(e):
+                    return frozenset((l, True, False) for (l, u, s_) in S)
+                if is_stamp(e):
+                    v = h.const_of(e.get('rhs')) if e.get('op') == '=' else None
+                    return frozenset((l, u, v == 0) for (l, u, s_) in S)
+                if _expired_link(e) and h.same_obj(_timer_of_move(e), xn, org, pt(e)):
+                    return frozenset((True, u, s_) for (l, u, s_) in S)
+                return S
+            _, ev2 = forward(g, frozenset({(False, False, False)}), tr2, lambda p, q: p | q)
+            bad_u, bad_s = None, None
+            ends = []
+            for bid, blk in g.blocks.items():
+                for i, e in enumerate(blk.events):
+                    if reset(e) or (e['ev'] == 'call' and 'fnexpr' in e and (callback_kind(e) or ('', ''))[0] != 'method') or e['ev'] == 'ret':
+                        ends.append((ev2.get((bid, i)) or (), e))
+            ends.append((ev2.get((g.exit, 0)) or (), a))
+            for (S, e) in ends:
+                if any(l and not u for (l, u, s_) in S):
+                    bad_u = bad_u or e
+                if any(l and not s_ for (l, u, s_) in S):
+                    bad_s = bad_s or e
+            k = a['loc']
+            prev = res.get(k, (a, None, None))
+            res[k] = (a, prev[1] or bad_u, prev[2] or bad_s)
+        for k, (a, bad_u, bad_s) in sorted(res.items()):
+            ctx.ob('R-C04d', '%s:leaves-heap-through-unregister' % root.name, bad_u is None, loc=a['loc'],
+                   detail='the timer linked by %s has left the heap (iv_timer_unregister / timer count lowered) since its definition whenever user code runs, '
+                          'it is redefined or the function returns%s' % (describe(a), '' if bad_u is None else ': not so at %s' % relpath(bad_u.get('loc', '?'))),
+                   path=None if bad_u is None else path_to(g, a), fn=root.q)
+            ctx.ob('R-C04d', '%s:expired-stamp' % root.name, bad_s is None, loc=a['loc'],
+                   detail='X->index = 0 (after the heap removal) accompanies %s before user code runs, X is redefined or the function returns%s'
+                          % (describe(a), '' if bad_s is None else ': not so at %s' % relpath(bad_s.get('loc', '?'))), fn=root.q)
+    INDEX = (('iv_timer_', 'index'), ('iv_timer', 'index'))
+
+    def guarded(g, op, rc, targets):
+        """every path from entry to each target crossed an edge on which the index of a timer held in a local compared
+        (op rc), tested before this function wrote any index"""
+        def tr(e, s):
+            if e['ev'] == 'store' and last_member(e['lhs']) in INDEX and not s[0]:
+                return (s[0], True)
+            return s
+
+        def edge(blk, si, s):
+            if s[0] or s[1] or not (blk.term and blk.term.get('cond') is not None and len(blk.succ) == 2):
+                return s
+            if blk.term.get('cls') in ('SwitchStmt', 'MethodDispatch'):
+                return s
+            for (o_, lc, r_, l, r) in norm_cond(blk.term['cond'], si == 0):
+                if o_ != 'const' and last_member(l) in INDEX and strip(h.member_base(l) or {}).get('k') == 'var' \
+                        and atoms_imply([(o_, lc, r_, None)], op, lc, rc):
+                    return (True, s[1])
+            return s
+        _, ev_in = forward(g, (False, False), tr, lambda p, q: (p[0] and q[0], p[1] or q[1]), edge=edge)
+        return bool(targets) and all((ev_in.get((e['_b'], e['_i'])) or (False, False))[0] for e in targets)
     r = prog.fn('iv_timer_register')
-    hd = holding(r)
-    incs = [e for e in r.events() if e['ev'] == 'store' and last_member(e['lhs']) == ('iv_state', 'num_timers')]
-    ok = bool(incs)
-    for e in incs:
-        A = hd.get((e['_b'], e['_i']), frozenset())
-        ok = ok and any(a[0] == '==' and a[2] == '-1' and a[1].endswith('->index') for a in A)
-    ctx.ob('R-C04d', 'iv_timer_register:refuses-registered', ok, loc=r.loc,
-           detail='a timer enters the heap only on the index == -1 edge (double registration is fatal)', fn=r.q)
+    g = h.inline_root(prog, r)
+    incs = [e for e in g.events() if e['ev'] == 'store' and last_member(e['lhs']) == ('iv_state', 'num_timers')]
+    ctx.ob('R-C04d', 'iv_timer_register:refuses-registered', guarded(g, '==', '-1', incs), loc=r.loc,
+           detail='the timer count is raised (a timer enters the heap) only behind the edge index == -1 of the timer as passed in (double registration is fatal)', fn=r.q)
     u = prog.fn('iv_timer_unregister')
-    hdu = holding(u)
-    first = [e for e in u.events() if e['ev'] == 'load' and last_member(e['e']) == ('iv_state', 'num_timers')]
-    oku = bool(first)
-    for e in first:
-        A = hdu.get((e['_b'], e['_i']), frozenset())
-        oku = oku and any(a[0] == '!=' and a[2] == '-1' and a[1].endswith('->index') for a in A)
-    ctx.ob('R-C04d', 'iv_timer_unregister:refuses-unregistered', oku, loc=u.loc,
-           detail='unregistering a timer whose index is -1 is fatal', fn=u.q)
+    g = h.inline_root(prog, u)
+    outs = [e for e in g.events() if (e['ev'] == 'store' and last_member(e['lhs']) == ('iv_state', 'num_timers')) or
+            (is_call(e, ('iv_list_del', 'iv_list_del_init')) and h.list_arg_member(e) in (('iv_timer_', 'list_expired'), ('iv_timer', 'list_expired')))]
+    ctx.ob('R-C04d', 'iv_timer_unregister:refuses-unregistered', guarded(g, '!=', '-1', outs), loc=u.loc,
+           detail='heap removal and unlinking from the expired batch happen only behind the edge index != -1 of the timer as passed in '
+                  '(unregistering an unregistered timer is fatal)', fn=u.q)
+
+
+def _is_heap_root(x, org, point, depth=0):
+    """x denotes heap slot 1: <ratnode>.first_leaf.child[1] (the leftmost leaf is embedded in the state), directly or
+    through locals / helper results whose every origin is that slot"""
+    x = strip(x)
+    if not isinstance(x, dict) or depth > 6:
+        return False
+    if x.get('k') == 'var':
+        os_ = org.of(x, point)
+        return bool(os_) and all(strip(o).get('k') != 'var' and _is_heap_root(o, org, point, depth + 1) for o in os_)
+    if x.get('k') == 'index' and h.const_of(x.get('idx')) == 1:
+        b = strip_load_(x['base'])
+        if isinstance(b, dict) and b.get('k') == 'member' and b.get('field') == 'child' and b.get('record') == 'iv_timer_ratnode' and not b.get('arrow'):
+            bb = strip_load_(b['base'])
+            return isinstance(bb, dict) and bb.get('k') == 'member' and bb.get('field') == 'first_leaf'
+    return False
+
+
+def strip_load_(x):
+    while isinstance(x, dict) and x.get('k') in ('load', 'cast', 'paren') and 'e' in x:
+        x = x['e']
+    return x
 
 
 def deadline(ctx):
     prog = ctx.prog
-    f = prog.fn('iv_main')
-    poll = [e for e in f.events() if is_call(e, 'iv_fd_poll_and_run')][0]
-    dl = canon(poll['args'][1])
-    defs = [e for e in f.events() if e['ev'] == 'store' and canon(e['lhs']) == dl]
-    kinds = set()
-    for d in defs:
-        r = strip(d['rhs'])
-        if isinstance(r, dict) and r.get('k') == 'addr' and strip(r['e']).get('vk') == 'local':
-            kinds.add('zeroed-local')
-        elif isinstance(r, dict) and r.get('k') == 'call' and r.get('callee') == 'iv_get_soonest_timeout':
-            kinds.add('soonest')
-        else:
-            kinds.add('other:' + canon(d['rhs']))
-    ctx.ob('R-C04e', 'iv_main:deadline-definitions', kinds == {'zeroed-local', 'soonest'}, loc=poll['loc'],
-           detail='definitions of the poll deadline: %s' % sorted(kinds), fn=f.q)
+    pollers = _pollers(prog)
+
+    def is_poll(e):
+        return is_call(e, tuple(pollers))
+    cs = h.contexts(prog, is_poll, stop=tuple(_timer_runners(prog)) + tuple(pollers) + ('iv_get_soonest_timeout', 'iv_run_tasks'))
+    if not cs:
+        raise AnalysisBroken('nothing calls %s' % '/'.join(pollers))
+    for (root, g, sites) in cs:
+        org = h.Origins(g)
+        kinds, site = set(), sites[0]
+        for s_ in sites:
+            # the deadline argument: the timespec pointer argument of the poll call
+            tgt = prog.fn(s_['callee'])
+            idx = [i for i, p_ in enumerate(tgt.params) if p_.get('ptr') and p_.get('record') == 'timespec']
+            if len(idx) != 1 or idx[0] >= len(s_['args']):
+                raise AnalysisBroken('%s: deadline argument not identified' % s_['callee'])
+            for o in org.of(s_['args'][idx[0]], (s_['_b'], s_['_i'])):
+                r = strip(o)
+                if isinstance(r, dict) and r.get('k') == 'addr' and strip(r['e']).get('k') == 'var' and strip(r['e']).get('vk') == 'local' \
+                        and strip(r['e']).get('record') == 'timespec' and not strip(r['e']).get('ptr'):
+                    kinds.add('zeroed-local')
+                elif isinstance(r, dict) and r.get('k') == 'call' and r.get('callee') == 'iv_get_soonest_timeout':
+                    kinds.add('soonest')
+                else:
+                    kinds.add('other:' + canon(o))
+        ctx.ob('R-C04e', '%s:deadline-definitions' % root.name, kinds == {'zeroed-local', 'soonest'}, loc=site['loc'],
+               detail='what the poll deadline may come from (through locals, helper results and conditional expressions): %s' % sorted(kinds), fn=root.q)
     s = prog.fn('iv_get_soonest_timeout')
-    hd = holding(s)
-    rets = [e for (pb, pi, e) in exits_of(s)]
-    okroot, oknull = False, False
-    for e in rets:
-        v = strip(e.get('value'))
-        A = hd.get((e['_b'], e['_i']), frozenset())
-        if isinstance(v, dict) and v.get('k') == 'null':
-            oknull = any(a[0] == '==' and a[2] == '0' and ('iv_state', 'num_timers') in a[3] for a in A)
-        elif isinstance(v, dict) and v.get('k') == 'addr' and last_member(v['e']) == ('iv_timer_', 'expires'):
-            tv = canon(strip(v['e'])['base'])
-            d = [x for x in s.events() if x['ev'] in ('decl', 'store') and (x.get('name') == tv or canon(x.get('lhs', {})) == tv)]
-            src = canon(d[0].get('init') or d[0].get('rhs')) if d else tv
-            okroot = src.endswith('first_leaf.child[1]') and any(a[0] == '!=' and a[2] == '0' and ('iv_state', 'num_timers') in a[3] for a in A)
-    ctx.ob('R-C04e', 'soonest:heap-root-when-nonempty', okroot, loc=s.loc,
-           detail='returns &heap[1]->expires on the num_timers != 0 edge', fn=s.q)
-    ctx.ob('R-C04e', 'soonest:null-when-empty', oknull, loc=s.loc, detail='returns NULL (no deadline) only when no timer is registered', fn=s.q)
+    g = h.inline_root(prog, s)
+    org = h.Origins(g)
+    NT = ('iv_state', 'num_timers')
+    res = delta_analysis(g, [], discr=[NT])
+    okroot, oknull, nroot, nnull = True, True, 0, 0
+    for (e, d, rc, preds) in res.rets:
+        empty = any(p_[0] == NT and ((p_[1] == '==' and p_[2] == 0) or (p_[1] == '<=' and p_[2] == 0) or (p_[1] == '<' and p_[2] == 1)) for p_ in preds)
+        nonempty = any(p_[0] == NT and ((p_[1] == '!=' and p_[2] == 0) or (p_[1] == '>' and p_[2] == 0) or (p_[1] == '>=' and p_[2] == 1)) for p_ in preds)
+        if rc == ('c', 0):
+            nnull += 1
+            oknull = oknull and empty
+        else:
+            nroot += 1
+            good = nonempty
+            os_ = [o for o in org.of(e['value'], (e['_b'], e['_i'])) if not h.const_of(o) == 0] if 'value' in e else []
+            good = good and bool(os_)
+            for o in os_:
+                r = strip(o)
+                good = good and isinstance(r, dict) and r.get('k') == 'addr' and last_member(r['e']) in (('iv_timer_', 'expires'), ('iv_timer', 'expires')) \
+                    and _is_heap_root(h.member_base(r['e']), org, (e['_b'], e['_i']))
+            okroot = okroot and good
+    ctx.ob('R-C04e', 'soonest:heap-root-when-nonempty', okroot and nroot > 0, loc=s.loc,
+           detail='every non-NULL result is the address of the expiry of heap slot 1, returned on paths that saw num_timers != 0', fn=s.q)
+    ctx.ob('R-C04e', 'soonest:null-when-empty', oknull and nnull > 0, loc=s.loc, detail='NULL (no deadline) is returned only on paths that saw num_timers == 0', fn=s.q)
